@@ -76,14 +76,14 @@ def task_systemgro_gen(prop, seed):
     selfm._pk_ammount_ordered_gen = Stub("_pk_ammount_ordered_gen", pk_gen)
 
     def inv_outer(st, k):
-        y = st.env.get("__yielded__")
-        if not isinstance(y, seq.SymList) or st.env.get("start_atom", pyvc.UNBOUND) is pyvc.UNBOUND:
+        y = pyvc.local(st, "__yielded__", seq.SymList)
+        if pyvc.local(st, "start_atom") is pyvc.UNBOUND:
             return z3.BoolVal(False)
         return z3.And(k >= 0, k <= NR, _tiles(y, seq.SymDict._key(st.env["start_atom"])))
 
     def inv_inner(st, j):
-        y = st.env.get("__yielded__")
-        if not isinstance(y, seq.SymList):
+        y = pyvc.local(st, "__yielded__", seq.SymList)
+        if pyvc.local(st, "start_atom") is pyvc.UNBOUND:
             return z3.BoolVal(False)
         return z3.And(j >= 0, _tiles(y, seq.SymDict._key(st.env["start_atom"])))
 
@@ -230,17 +230,17 @@ def task_system_gen(prop, seed):
         return z3.ForAll([r], z3.Implies(z3.And(r >= 0, r < y.length), z3.Select(b, r) - z3.Select(a, r) == NRes(z3.Select(sp, r))))
 
     def inv_outer(st, k):
-        y = st.env.get("__yielded__")
-        if not isinstance(y, seq.SymList):
-            return z3.BoolVal(False)
+        y = pyvc.local(st, "__yielded__", seq.SymList)
         return z3.And(k >= 0, k <= NBk, y.length >= 0, props(y, k))
 
     def inv_inner(st, j):
-        y = st.env.get("__yielded__")
+        y = pyvc.local(st, "__yielded__", seq.SymList)
         k = st.ghost.get("outer_k")
-        if not isinstance(y, seq.SymList) or k is None:
-            return z3.BoolVal(False)
+        if k is None:
+            raise pyvc.PyvcUnsupported("outer loop index not recorded")
         e = st.env
+        if pyvc.local(st, "len_mol") is pyvc.UNBOUND:
+            return z3.BoolVal(False)
         L = seq.SymDict._key(e["len_mol"])
         base = st.ghost["len_at_block_start"]
         sp, a, b = y.arrays
